@@ -90,11 +90,18 @@ def rule_R04_2(ctx):
     fields = adt["variants"][0]["fields"]
     ty = fields[0]["ty"] if fields else ""
     r.inst("ScopeStack field: %s" % ty)
-    if len(fields) == 1 and ty.startswith("std::vec::Vec<std::sync::Arc<std::sync::Mutex<"):
+    SCALARS = ("usize", "u8", "u16", "u32", "u64", "i32", "i64", "isize", "bool", "char")
+    cells = [fd for fd in fields if fd["ty"].startswith("std::vec::Vec<std::sync::Arc<std::sync::Mutex<")]
+    extra = [fd for fd in fields if fd not in cells and fd["ty"] not in SCALARS]
+    if len(cells) == 1 and not extra:
         r.ok()
     else:
-        r.fail("eval::scope::ScopeStack | representation=%s" % ty[:60],
-               "a scope chain must be a list of shared (Arc<Mutex<..>>) scope cells")
+        r.fail("eval::scope::ScopeStack | representation cells=%d other=%s"
+               % (len(cells), ",".join(fd["name"] + ":" + fd["ty"].split("<")[0] for fd in extra)),
+               "a scope chain must be a list of shared (Arc<Mutex<..>>) scope "
+               "cells; every other non-scalar field (%s) is copied when a "
+               "closure captures the chain, i.e. captured by value"
+               % [fd["name"] for fd in extra])
     n = 0
     for f in prog.full_fns(generated=False):
         for c in f.calls():
@@ -206,6 +213,7 @@ def rule_R04_4(ctx):
                    "its declarations; a scope reused across iterations is "
                    "not fresh")
     ses = [f for f in prog.hand_fns() if not f.is_closure and not f.from_expansion
+           and f.locals and "eval::Escape" in f.locals[0]
            and any(e == "ast::Stmt" for e in ops.arg_rooted_switches(f).values())]
     if not r.require_floor("statement evaluator", len(ses), 1):
         return r
@@ -275,7 +283,16 @@ def rule_R04_4(ctx):
     r.inst("producers of scope chains outside the scope module: %s" % sorted(prods))
     allowed = {"eval::scope::ScopeStack::new_from_push", "eval::scope::ScopeStack::new",
                "<eval::scope::ScopeStack as std::clone::Clone>::clone"}
-    extra = prods - allowed
+    extra = set()
+    for pth in prods - allowed:
+        gfn = prog.fns.get(pth)
+        # a producer that only re-wraps a clone of the chain (no push, no new
+        # scope cell) cannot add or drop scopes
+        if gfn is not None and gfn.full and not any(
+                (c.res or "").split("::")[-1] in ("push", "pop", "truncate", "remove", "insert", "drain", "clear")
+                or (c.declared or "") == "std::sync::Arc::<T>::new" for c in gfn.calls()):
+            continue
+        extra.add(pth)
     if not extra:
         r.ok()
     else:
